@@ -141,3 +141,12 @@ func init() {
 	p.Rules = append(p.Rules, "R-PARITY")
 	Properties["C06"] = p
 }
+
+func init() {
+	Properties["C05"] = PropertySpec{
+		Rules: []string{"R-COVER", "R-CELLREL", "R-CYCLE", "R-INIT", "R-CONST"},
+		Explanation: "Coverings cover and interior coverings are contained, reduced to the coverer's discard / terminal discipline, its post-processing with the coverer's own clamped parameters, the clamp-then-align order of level fix-ups, " +
+			"the one-sided cell predicates of Loop and Polygon (relation table and boundary-then-centre order), Cap's shared cell helper, enumeration loops that really enumerate, a usable index for the full polygon, and unweakened clipping paddings.",
+		NotCovered: "geometric correctness of Cap/Rect/Polyline cell predicates beyond the named structural clause; MaxCells behaviour; the numeric clipping itself.",
+	}
+}
